@@ -163,7 +163,9 @@ def init_sp_gemv(ex, st, params):
     # have to rediscover the division)
     from engine.cvc.exec import cdiv, crem
     oi, oj = crem(oA, nr), cdiv(oA, nr)
-    pre += [z3.Implies(m != 0, z3.And(oi + m <= nr, oj + n <= nc))]
+    # (the block may even wrap around the last row: oi + m <= nrows is not
+    # required -- base.gemv does not check it -- only the columns must exist)
+    pre += [z3.Implies(z3.And(m != 0, n != 0), oj + n <= nc)]
     # the kernel is entered through the table sp_gemv[id]
     pre += [o.sp_id == (1 if ex.fname == 'sp_dgemv' else 2)]
     st.pc.extend(pre)
